@@ -726,7 +726,10 @@ func (b *BFT) SafeNode(msg *Message) lib.ErrorI {
 		return nil // SAFETY (SAME PROPOSAL AS LOCKED)
 	}
 	// if the view of the Locked proposal is older than the Leader's message
-	if msg.HighQc.Header.Round > b.HighQC.Header.Round {
+	// NOTE: rounds restart at 0 on every NEW_COMMITTEE reset while locks are kept, so the comparison must be
+	// on (root height, round) - a round-only comparison lets a stale certificate from an earlier root height unlock
+	if lockedView, justifyView := b.HighQC.Header, msg.HighQc.Header; justifyView.RootHeight > lockedView.RootHeight ||
+		(justifyView.RootHeight == lockedView.RootHeight && justifyView.Round > lockedView.Round) {
 		b.log.Infof("Proposal %s satisfied the safe node predicate with LIVENESS", lib.BytesToTruncatedString(b.HighQC.BlockHash))
 		return nil // LIVENESS (HIGHER ROUND v COMMITTEE THAN LOCKED)
 	}
